@@ -337,6 +337,32 @@ theorem one_to_one_by_value_witness :
     (lookup (specContents byValT (exec byValT {} byValRun).prim (exec byValT {} byValRun).sec) "val/g").isSome = true ∧
     runOK byValT {} byValRun = false := by decide
 
+/-! ## the other order: the old parent releases the key in an earlier change than the one in which the new parent
+    takes it, with no quiescent point in between.  The input-level discipline `Disciplined` rejects this history
+    (it only looks at who claimed what since the last quiescent point), but the queue applies the two batches
+    in order, `runOK` holds under both schedules and the contents are right: such moves are NOT in the known
+    class F6 - the stream `krtf6` compares them on the normally judged lines. -/
+
+def oldFirstSetup : List Act :=
+  [ .envP [.set { ns := "n1", name := "a", outs := ["k"] }], .envP [.set { ns := "n1", name := "b" }], .procP, .procP ]
+def oldFirstLate : List Act :=   -- both changes are queued before the first one is processed
+  oldFirstSetup ++ [ .envP [.set { ns := "n1", name := "a" }], .envP [.set { ns := "n1", name := "b", outs := ["k"] }],
+    .procP, .procP ]
+def oldFirstEager : List Act :=
+  oldFirstSetup ++ [ .envP [.set { ns := "n1", name := "a" }], .procP,
+    .envP [.set { ns := "n1", name := "b", outs := ["k"] }], .procP ]
+def oldDeletedFirst : List Act :=  -- the old parent is deleted, the new parent adopts the key at once
+  oldFirstSetup ++ [ .envP [.del "n1/a"], .envP [.set { ns := "n1", name := "b", outs := ["k"] }], .procP, .procP ]
+
+theorem old_parent_first_accepted :
+    [oldFirstLate, oldFirstEager, oldDeletedFirst].all (fun run =>
+      runOK keyMoveT {} run &&
+      (exec keyMoveT {} run).quiescent &&
+      (lookup (exec keyMoveT {} run).col.outputs "k").isSome &&
+      decide (lookup (exec keyMoveT {} run).col.outputs "k" =
+        lookup (specContents keyMoveT (exec keyMoveT {} run).prim (exec keyMoveT {} run).sec) "k")) = true := by
+  decide
+
 /-! ## non-vacuity: a non-trivial run that satisfies the hypotheses -/
 
 def exT : Transform := { multi := true, fetches := [[.label]], gate := true }
